@@ -302,3 +302,47 @@ def run(ctx, prog, rule="R-SHIFT", files=FILES):
                        (r[0], r[1], width, "%d or more" % width if r[1] >= width else "less than zero", fn.text(i)))
     ctx.floor(rule, "shift expressions", n, 12)
     ctx.doc(rule, __doc__.strip().split("\n\n")[1].replace("\n", " "))
+
+
+def run_signext(ctx, prog, rule="R-SIGNEXT", files=FILES):
+    """No sign-extended value inside a byte assembly: a conversion from a
+    signed type to a wider unsigned type whose result is an operand of | ^ +
+    or << (an unmasked composition of header bytes) must have a source that
+    cannot be negative (constant, or under a dominating >= 0 test).  A
+    negative int8_t extension type, for instance, would otherwise overwrite
+    every size byte above it with 0xFF."""
+    B = Bounds(prog)
+    n = 0
+    seen = set()
+    for fn in sorted(prog.fns.values(), key=lambda f: f.key):
+        if not fn.file.startswith(files) or fn.cfg is None:
+            continue
+        par = fn.parents()
+        for i in fn.walk():
+            st = fn.s(i)
+            if st.get("ck") != "IntegralCast":
+                continue
+            fk, tk = st.get("fromk", ""), st.get("tk", "")
+            if not (fk[:1] == "s" and tk[:1] == "u" and fk[1:].isdigit() and tk[1:].isdigit() and int(tk[1:]) > int(fk[1:])):
+                continue
+            # climb through parens / further casts to the consuming operator
+            j = par.get(i)
+            while j is not None and (fn.s(j)["k"] in P.TRANSPARENT or fn.s(j)["k"] in P.EXPLICIT_CASTS):
+                j = par.get(j)
+            if j is None:
+                continue
+            pj = fn.s(j)
+            if not (pj["k"] in ("BinaryOperator", "CompoundAssignOperator") and pj["op"] in ("|", "^", "+", "<<", "|=", "^=", "+=")):
+                continue
+            if (fn.short, fn.loc(i), fn.text(i)) in seen:
+                continue
+            seen.add((fn.short, fn.loc(i), fn.text(i)))
+            n += 1
+            r = B.ev(fn, st["c"][0], i)
+            ok = r is not None and r[0] >= 0
+            ctx.ob(rule, "%s: %s cannot be negative" % (fn.short, fn.text(st["c"][0])[:50]), ok, fn.loc(i),
+                   "source in [%d, %d]" % r if ok else
+                   "%s (%s) is widened to %s with sign extension and combined by `%s`: a negative value sets every higher byte of the "
+                   "assembled header to 0xFF: %s" % (fn.text(st["c"][0])[:50], fk, tk, pj["op"], fn.text(j)[:90]))
+    ctx.count(rule + ":sites", n)
+    ctx.doc(rule, run_signext.__doc__.strip().replace("\n", " "))
